@@ -81,7 +81,7 @@ fn compile(_req: &json::JsonValue) -> json::JsonValue { json::object! { "status"
 // compile (twice if asked) and report only status / repeatability (used in a forked child: a crash is an observation)
 fn compile_twice(req: &json::JsonValue) -> json::JsonValue {
     let a = compile(req);
-    let mut out = json::object! { "status": a["status"].clone(), "msg": a["msg"].clone() };
+    let mut out = json::object! { "status": a["status"].clone(), "msg": a["msg"].clone(), "code_len": a["code"].as_str().map(|c| c.len() / 2).unwrap_or(0) };
     if req["twice"].as_bool().unwrap_or(false) && a["status"] == "ok" {
         let b = compile(req);
         out["repeatable"] = (a["code"] == b["code"] && a["clif"] == b["clif"] && b["status"] == "ok").into();
